@@ -1297,6 +1297,15 @@ struct array : static_array<T, D, Alloc> {
 		if(this == std::addressof(other)) {
 			return *this;
 		}
+		if constexpr(! multi::allocator_traits<typename array::allocator_type>::propagate_on_container_move_assignment::value && ! multi::allocator_traits<typename array::allocator_type>::is_always_equal::value) {
+			if(this->alloc() != other.alloc()) {  // the block of an unequal allocator cannot be adopted: move element by element
+				clear();
+				this->layout_mutable() = other.layout();
+				array::allocate();
+				adl_alloc_uninitialized_move_n(this->alloc(), other.data_elements(), other.num_elements(), this->data_elements());
+				return *this;
+			}
+		}
 		clear();
 		this->base_ = other.base_;
 		if constexpr(multi::allocator_traits<typename array::allocator_type>::propagate_on_container_move_assignment::value) {
